@@ -311,8 +311,8 @@ def run_case(check_config, case, ctx=None):
         if mode == "merge-late" and not any(r.psyn or r.usyn for r in recs):
             continue
         if mode in ("chain-of-singletons", "sub-by-synonym"):
-            # derived converters are strict converters too; both operations build their result with the default delimiter
-            if d != ":" or case.get("qlen") or (mode == "chain-of-singletons" and len(recs) < 2) or (mode == "sub-by-synonym" and not any(r.psyn for r in recs)):
+            # derived converters are strict converters too (and keep the delimiter of the converter they come from)
+            if case.get("qlen") or (mode == "chain-of-singletons" and len(recs) < 2) or (mode == "sub-by-synonym" and not any(r.psyn for r in recs)):
                 continue
         where = f"records {recs_to_json(recs)} delimiter {d!r} mode {mode}"
         inputs = []
@@ -360,10 +360,10 @@ def run_case(check_config, case, ctx=None):
             elif mode == "chain-of-singletons":
                 from ..impl import curies as _curies
 
-                inputs = [(Converter([to_record(r)]), Model([r], d)) for r in recs]
+                inputs = [(Converter([to_record(r)], delimiter=d), Model([r], d)) for r in recs]
                 conv = _curies.chain([c for c, _ in inputs])
             else:
-                parent = Converter([to_record(r) for r in recs] + [to_record(mrec("zz9", "zz9/"))])
+                parent = Converter([to_record(r) for r in recs] + [to_record(mrec("zz9", "zz9/"))], delimiter=d)
                 inputs = [(parent, Model(recs + [mrec("zz9", "zz9/")], d))]
                 conv = parent.get_subconverter([r.psyn[0] if r.psyn else r.prefix for r in recs])
         except Exception as e:  # noqa
